@@ -17,6 +17,57 @@ def run(rep, prog, tier):
     r2(rep, prog)
     r3(rep, prog)
     r4(rep, prog)
+    r5(rep, prog)
+
+
+def r5(rep, prog):
+    """per-document data of a merge is copied in the order of the doc id mapping"""
+    import re
+    from ..rules import natural_loop, dominating_guards
+    R = "C17-R5"
+    rep.rule(R, "merged per-document data follows the doc id mapping: IndexMerger::write_fieldnorms and write_storable_fields receive the merge's SegmentDocIdMapping; every place where they append data for the merged segment (Vec::push / extend of the field-norm buffer, StoreWriter::store_bytes / stack) lies either inside a loop driven by doc_id_mapping.iter_old_doc_addrs() or on the arm of a test of doc_id_mapping.is_trivial() that holds (the stacked mapping, where segment after segment IS the mapping). Copying segment by segment under any other condition (\"no deletes\") is wrong for a sorted index, whose k-way merge interleaves the segments")
+    ITER = "tantivy::indexer::doc_id_mapping::SegmentDocIdMapping::iter_old_doc_addrs"
+    TRIV = "tantivy::indexer::doc_id_mapping::SegmentDocIdMapping::is_trivial"
+    ADAPT = prog.names(r"IntoIterator>?::into_iter$|Iterator::(enumerate|copied|cloned|by_ref|peekable|zip)$")
+    SINK = re.compile(r"alloc::vec::Vec::<T, A>::(push|extend_from_slice|extend_from_within|append|insert|resize)$|core::iter::traits::collect::Extend::extend$|tantivy::store::writer::StoreWriter::(store_bytes|stack|store)$")
+    n = 0
+    for meth in ("write_fieldnorms", "write_storable_fields"):
+        fid = "tantivy::indexer::merger::IndexMerger::" + meth
+        b = get_body(rep, prog, R, fid)
+        if b is None:
+            continue
+        loops = []
+        for bi, t in b.calls():
+            if not (t.get("f") or "").endswith("Iterator::next"):
+                continue
+            l = op_local(t["args"][0])
+            lv = provenance(b, l, extra_transparent=ADAPT) if l is not None else set()
+            if not any(x[0] == "call" and x[1] == ITER for x in lv):
+                continue
+            hb, lp, steps = bi, natural_loop(b, bi), 0
+            while not lp and steps < 4 and len(b.pred(hb)) == 1:
+                hb = b.pred(hb)[0]
+                lp = natural_loop(b, hb)
+                steps += 1
+            if lp:
+                loops.append(lp)
+        rep.check(bool(loops), R, "%s has a loop driven by iter_old_doc_addrs()" % meth, "%d loop(s)" % len(loops),
+                  "IndexMerger::%s has no loop driven by doc_id_mapping.iter_old_doc_addrs(): the order of what it writes cannot follow the mapping" % meth, site=b.span)
+        for bi, t in b.calls():
+            f = t.get("f") or ""
+            if not SINK.search(f):
+                continue
+            n += 1
+            in_loop = any(bi in lp for lp in loops)
+            triv = False
+            for sb, through, gl in dominating_guards(b, bi):
+                tr = trace_back(b, gl)
+                if tr and tr[-1][0] == "call" and tr[-1][1] == TRIV and all(x[0] in ("use", "cast") for x in tr[:-1]) and set(through) <= {"else", "1"}:
+                    triv = True
+            rep.check(in_loop or triv, R, "%s: %s at bb%d follows the mapping" % (meth, short(f), bi), "inside the iter_old_doc_addrs() loop" if in_loop else "on the is_trivial() arm (stacked mapping)",
+                      "IndexMerger::%s appends data of the merged segment with `%s` outside the loop over doc_id_mapping.iter_old_doc_addrs() and not under `doc_id_mapping.is_trivial()`: data is copied segment after segment "
+                      "although the mapping may interleave the segments (a sorted index merged by the k-way path) — the values end up on the wrong documents" % (meth, short(f)), site=site(b, bi))
+    rep.floor(R, "append sites of merged per-document data", n, 4)
 
 
 def r3(rep, prog):
